@@ -602,10 +602,9 @@ pub fn run_scan(args: &Args, report: &mut Report) {
                 let mut n = 0u64;
                 let mut seq = 0u32;
                 while !stop.load(Ordering::Relaxed) {
-                    let i = rng.usize_below(churn.len());
-                    if i % nchurn != c {
-                        continue;
-                    }
+                    // churn keys are shared by all churn threads: same-key delete / re-create / update races
+                    // are exactly what can make the two indexes drift apart. A small hot subset raises the odds.
+                    let i = if rng.chance(1, 2) { rng.usize_below(churn.len().min(6)) } else { rng.usize_below(churn.len()) };
                     let k = &churn[i];
                     seq += 1;
                     match rng.below(10) {
@@ -731,6 +730,15 @@ pub fn run_scan(args: &Args, report: &mut Report) {
             report.violation("scan:index-disagree", format!("at quiescence the ordered index has {} entries and the hash index {} (or they point at different records)", tree.len(), hash.len()), replay.clone());
         }
         report.count("index_agreement_checks", 1);
+        if let Ok(all) = store.range_query(&[], &[0xff; 8], usize::MAX) {
+            let returned: std::collections::BTreeSet<&[u8]> = all.iter().map(|p| p.0.as_slice()).collect();
+            for e in &snap.entries {
+                if !returned.contains(e.key.as_slice()) {
+                    report.violation("scan:live-key-missing-at-quiescence", format!("key {} is live (get works) but a full range query at quiescence does not return it", hex(&e.key)), replay.clone());
+                    break;
+                }
+            }
+        }
         if churn_ops > 0 {
             report.nontrivial.insert(fnv_mix(rid, churn_ops));
         }
